@@ -604,6 +604,37 @@ theorem checkFlip_complete (d : Dims Rat) (p : Particle Rat) :
     simp only [checkFlip, hd, hp dz hd, Bool.and_true, Bool.and_eq_true, beq_iff_eq]
     unfold flipP; split <;> exact ⟨⟨rfl, rfl⟩, rfl⟩
 
+/-! #### the three exact checkers DECIDE their clauses (soundness above, completeness here): what the harness
+reads off the driver's verdict on the real code's tables is the clause itself, nothing stronger -/
+theorem isInt_intCast (n : Int) : isInt (n : Rat) = true := by
+  simp [isInt]
+
+theorem checkUpdate_iff (b a : Particle Rat) :
+    checkUpdate b a = true ↔
+    (pos a = pos b ∧ (∃ i j k : Int, a.x = (i : Rat) ∧ a.y = (j : Rat) ∧ a.z = (k : Rat)) ∧
+      |a.shift_x| ≤ 1/2 ∧ |a.shift_y| ≤ 1/2 ∧ |a.shift_z| ≤ 1/2) := by
+  refine ⟨checkUpdate_sound b a, ?_⟩
+  rintro ⟨hp, ⟨i, j, k, hi, hj, hk⟩, h1, h2, h3⟩
+  simp only [checkUpdate, Bool.and_eq_true, beq_iff_eq, decide_eq_true_eq, absR_eq_abs]
+  exact ⟨⟨⟨⟨⟨⟨hp, hi ▸ isInt_intCast i⟩, hj ▸ isInt_intCast j⟩, hk ▸ isInt_intCast k⟩, h1⟩, h2⟩, h3⟩
+
+theorem checkScale_iff (f : Rat) (b a : Particle Rat) : checkScale f b a = true ↔ pos a = V3.smul f (pos b) := by
+  simp [checkScale]
+
+theorem checkFlipPos_iff (d : Dims Rat) (b a : Particle Rat) :
+    checkFlipPos d b a = true ↔
+    ∀ dz, specDim d b.tomo_id = some dz →
+      pos a = ⟨(pos b).x, (pos b).y, dz + 1 - (pos b).z⟩ ∧ a.tomo_id = b.tomo_id := by
+  constructor
+  · intro h dz hd; exact checkFlipPos_sound d b a h dz hd
+  · intro h
+    cases hd : specDim d b.tomo_id with
+    | none => simp only [checkFlipPos, hd]
+    | some dz =>
+      obtain ⟨hp, ht⟩ := h dz hd
+      simp only [checkFlipPos, hd, Bool.and_eq_true, beq_iff_eq]
+      exact ⟨ht, hp⟩
+
 /-! ### the global scipy assumptions are satisfiable: true cosine/sine, Euler extraction and rounding over ℝ
 
 `absPose_runOps_global` assumes `CsOdd`, cos² + sin² = 1 and `EulerOK` for EVERY proper rotation. Over `Rat`
